@@ -68,6 +68,9 @@ def check_affine(ctx, case):
     ctx.cls('carrier:' + carrier)
     ctx.ev(len(us))
     sig = 'affine/%s/%s/%s' % (route, shape, carrier)
+    if route == 'like-method' and carrier != 'fxp':
+        route = 'ctor'
+    sig = 'affine/%s/%s/%s' % (route, shape, carrier)
     sc, bi = num(s, case['scale_float']), num(b, case['bias_float'])
     if case.get('bias_np32') and isinstance(bi, float) and float(np.float32(bi)) == bi:
         bi = np.float32(bi)         # a numpy floating scalar as bias
@@ -109,6 +112,10 @@ def check_affine(ctx, case):
         elif route == 'ctor-like':
             # sizes come from an unscaled template; scale and bias are given next to like=
             x = F(obj, like=F(None, sg, w, f), **kw)
+            sel = None
+        elif route == 'like-method':
+            # obj.like(scaled template): the converted object holds obj's VALUE in the template's affine format
+            x = obj.like(F(float(b), sg, w, f, **kw))
             sel = None
         elif route == 'call':
             # (a value-less scaled object stores v=0, i.e. u=-b/s, which may itself raise flags: start from v=b, u=0)
@@ -329,7 +336,7 @@ def st_case(draw, infer=False):
                 break
         x4s.append(x4)
     case = {'check': 'infer' if infer else 'affine', 'fmt': list(fmt), 'mode': list(draw(C.st_modes())), 'scale': list(sc), 'bias': list(bi),
-            'x4s': x4s, 'route': draw(st.sampled_from(['ctor', 'ctor-like', 'call', 'set_val', 'setitem'])), 'shape': draw(st.sampled_from(['scalar', 'array'])),
+            'x4s': x4s, 'route': draw(st.sampled_from(['ctor', 'ctor-like', 'call', 'set_val', 'setitem', 'like-method'])), 'shape': draw(st.sampled_from(['scalar', 'array'])),
             'scale_float': draw(st.booleans()), 'bias_float': draw(st.booleans()), 'signed': draw(st.sampled_from([None, True, False])),
             'carrier': draw(st.sampled_from(['float', 'float', 'int', 'list-int', 'tuple-int', 'list-float', 'np-int', 'np-narrow', 'np-uint64', 'fxp', 'fxp'])),
             'u64': draw(st.sampled_from(['array', 'list'])),
